@@ -103,6 +103,26 @@ def binning_meta(b) -> dict:
     return {"t": "static", "ire": bool(b.includes_right_edge)}
 
 
+def _numpy_bins_of(binning):
+    """the edge representation (None when the bins are not consecutive and physt refuses to give one)"""
+    try:
+        return [nrs(x) for x in np.asarray(binning.numpy_bins)]
+    except Exception:
+        return None
+
+
+def edges_consistent(snap_bins, numpy_bins) -> bool:
+    """the edge form must be the edges of the pair form (for consecutive bins)"""
+    if numpy_bins is None:
+        return True
+    if not snap_bins:
+        return len(numpy_bins) <= 1
+    consecutive = all(snap_bins[i][1] == snap_bins[i + 1][0] for i in range(len(snap_bins) - 1))
+    if not consecutive:
+        return True          # allclose-consecutive bins: physt chooses which of the two nearly equal edges to report
+    return numpy_bins == [snap_bins[0][0]] + [b[1] for b in snap_bins]
+
+
 def snap1(h: Histogram1D) -> dict:
     bins = np.asarray(h.bins).reshape(-1, 2)
     return {
@@ -115,6 +135,7 @@ def snap1(h: Histogram1D) -> dict:
         # consistency facts the model has by construction (compared by the oracles, not the diff)
         "_freq_dtype": str(h.frequencies.dtype), "_err2_dtype": str(h.errors2.dtype),
         "_shape_ok": h.frequencies.shape == h.errors2.shape == (bins.shape[0],),
+        "_numpy_bins": _numpy_bins_of(h.binning),
     }
 
 
